@@ -171,7 +171,7 @@ Qed.
 
 Lemma ginv_timer : forall s g bo bestl, GInv s -> GInv (cstep s (CTimer g bo bestl)).
 Proof.
-  intros s g bo bestl G. cbn [cstep].
+  intros s g bo bestl G. cbn [cstep]. destruct (g <? c_next s); [|exact G].
   match goal with |- GInv (fold_left ?f ?news ?s0) => destruct (add_jobs_frame g (aget 0 g (c_gpeer s)) news s0) as [A [B [C [D [E [F [H K]]]]]]] end.
   eapply ginv_frame; [exact G|..].
   - rewrite add_jobs_sync. reflexivity.
@@ -390,3 +390,98 @@ Lemma crun_ginv : forall ls s, GInv s -> GInv (crun s ls).
 Proof.
   induction ls as [|l r IH]; intros s G; cbn [crun fold_left]; [exact G|]. apply IH, cstep_ginv, G.
 Qed.
+
+(* ---- every call is answered at most once --------------------------------------------------- *)
+Record RInv (s : cst) : Prop := mkRInv {
+  r_nodup : NoDup (map fst (c_rets s));
+  r_ret : forall c, In c (map fst (c_rets s)) -> exists r, cget c s = Some r /\ cr_phase r = PReturned }.
+
+Lemma rinv_frame : forall s s', RInv s -> c_rets s' = c_rets s ->
+  (forall c r, cget c s = Some r -> cr_phase r = PReturned -> exists r', cget c s' = Some r' /\ cr_phase r' = PReturned) ->
+  RInv s'.
+Proof.
+  intros s s' [N R] E K. constructor; rewrite E; [exact N|].
+  intros c H. destruct (R c H) as [r [A B]]. apply (K c r A B).
+Qed.
+
+Lemma rinv_add : forall s s' c k, RInv s -> c_rets s' = c_rets s ++ [(c, k)] ->
+  ~ In c (map fst (c_rets s)) ->
+  (exists r', cget c s' = Some r' /\ cr_phase r' = PReturned) ->
+  (forall x r, x <> c -> cget x s = Some r -> cr_phase r = PReturned -> exists r', cget x s' = Some r' /\ cr_phase r' = PReturned) ->
+  RInv s'.
+Proof.
+  intros s s' c k [N R] E F Hc K. constructor; rewrite E, map_app; cbn [map fst].
+  - apply NoDup_snoc; assumption.
+  - intros x H. apply in_app_or in H. destruct H as [H|[H|[]]]; [|subst x; exact Hc].
+    destruct (Z.eq_dec x c) as [->|Nx]; [exact Hc|]. destruct (R x H) as [r [A B]]. apply (K x r Nx A B).
+Qed.
+
+Lemma rinv_do_leave : forall s c r k, RInv s -> cget c s = Some r -> cr_phase r <> PReturned ->
+  RInv (do_leave s c r k).
+Proof.
+  intros s c r k RI Ec Hp.
+  assert (F : ~ In c (map fst (c_rets s))).
+  { intros H. destruct RI as [_ R]. destruct (R c H) as [r' [A B]]. congruence. }
+  assert (Cg : forall x s0, c_callers s0 = aput c (Some (set_phase r PReturned)) (c_callers s) ->
+               cget x s0 = if c =? x then Some (set_phase r PReturned) else cget x s).
+  { intros x s0 E. unfold cget. rewrite E. apply aget_aput. }
+  unfold do_leave. cprj. destruct (p_active _).
+  - eapply (rinv_add s _ c k RI); cprj; [reflexivity | exact F | |].
+    + erewrite (Cg c) by reflexivity. rewrite Z.eqb_refl. eexists. split; reflexivity.
+    + intros x r0 Nx A B. erewrite (Cg x) by reflexivity.
+      destruct (c =? x) eqn:E; [apply Z.eqb_eq in E; congruence | eauto].
+  - eapply (rinv_add s _ c k RI); cprj; [reflexivity | exact F | |].
+    + erewrite (Cg c) by reflexivity. rewrite Z.eqb_refl. eexists. split; reflexivity.
+    + intros x r0 Nx A B. erewrite (Cg x) by reflexivity.
+      destruct (c =? x) eqn:E; [apply Z.eqb_eq in E; congruence | eauto].
+Qed.
+
+Lemma cstep_rinv : forall s l, RInv s -> RInv (cstep s l).
+Proof.
+  intros s l RI. destruct l; cbn [cstep].
+  - destruct (cget c s) as [r0|] eqn:Ec; [exact RI|].
+    assert (F : ~ In c (map fst (c_rets s))).
+    { intros H. destruct RI as [_ R]. destruct (R c H) as [r' [A B]]. congruence. }
+    assert (K : forall s0 rc, c_callers s0 = aput c (Some rc) (c_callers s) -> c_rets s0 = c_rets s -> RInv s0).
+    { intros s0 rc E1 E2. eapply rinv_frame; [exact RI | exact E2|].
+      intros x r A B. unfold cget in *. rewrite E1, aget_aput.
+      destruct (c =? x) eqn:E; [apply Z.eqb_eq in E; subst; congruence | eauto]. }
+    destruct best.
+    + eapply (rinv_add s _ c 0 RI); cprj; [reflexivity | exact F | |].
+      * unfold cget. cprj. rewrite aget_aput, Z.eqb_refl. eexists. split; reflexivity.
+      * intros x r Nx A B. unfold cget in *. cprj. rewrite aget_aput.
+        destruct (c =? x) eqn:E; [apply Z.eqb_eq in E; congruence | eauto].
+    + destruct (p_active _); cprj.
+      * destruct (aget None p (c_gen s)); [|exact RI]. eapply K; reflexivity.
+      * eapply K; reflexivity.
+  - destruct (cget c s) as [r|] eqn:Ec; [|exact RI]. destruct (cr_phase r) eqn:Ep; try exact RI.
+    eapply rinv_frame; [exact RI | reflexivity|]. intros x r0 A B. unfold cget in *. cprj. rewrite aget_aput.
+    destruct (c =? x) eqn:E; [apply Z.eqb_eq in E; subst; congruence | eauto].
+  - destruct (g <? c_next s); [|exact RI].
+    match goal with |- RInv (fold_left ?f ?news ?s0) =>
+      destruct (add_jobs_frame g (aget 0 g (c_gpeer s)) news s0) as [A [B _]] end.
+    eapply rinv_frame; [exact RI | rewrite B; reflexivity|]. intros x r X Y. unfold cget in *. rewrite A. eauto.
+  - eapply rinv_frame; [exact RI | reflexivity | eauto].
+  - destruct (jget n s) as [j|]; [|exact RI]. destruct (_ && _); [|exact RI].
+    eapply rinv_frame; [exact RI | reflexivity | eauto].
+  - destruct (jget n s) as [j|]; [|exact RI]. destruct (jr_reported j); [|exact RI].
+    eapply rinv_frame; [exact RI | reflexivity | eauto].
+  - destruct (cget c s) as [r|] eqn:Ec; [|exact RI]. destruct (cr_phase r) eqn:Ep; try exact RI;
+      (eapply rinv_frame; [exact RI | reflexivity|]; intros x r0 A B; unfold cget in *; cprj; rewrite aget_aput;
+       destruct (c =? x) eqn:E; [apply Z.eqb_eq in E; subst; congruence | eauto]).
+  - destruct (cget c s) as [r|] eqn:Ec; [|exact RI].
+    assert (L : cr_phase r <> PReturned -> forall k, RInv (do_leave s c r k)) by (intros; apply rinv_do_leave; auto).
+    destruct (cr_phase r) eqn:Ep; try exact RI.
+    + destruct (cr_canc r); [apply L; discriminate | exact RI].
+    + destruct (resp_of c _) as [[|]|]; try (apply L; discriminate).
+      destruct (cr_canc r); [apply L; discriminate | exact RI].
+  - destruct (memz g (c_stale s)); [|exact RI]. eapply rinv_frame; [exact RI | reflexivity | eauto].
+Qed.
+
+Lemma crun_rinv : forall ls s, RInv s -> RInv (crun s ls).
+Proof.
+  induction ls as [|l r IH]; intros s G; cbn [crun fold_left]; [exact G|]. apply IH, cstep_rinv, G.
+Qed.
+
+Lemma init_rinv : forall fdl ppl fd, RInv (init_c fdl ppl fd).
+Proof. intros. constructor; cbn; [constructor | intros c []]. Qed.
